@@ -514,7 +514,7 @@ impl RefV for Ipa {
 // Hyrax
 // ------------------------------------------------------------------------------------------------
 
-fn eq_tensor(values: &[Fr]) -> Vec<Fr> {
+pub fn eq_tensor(values: &[Fr]) -> Vec<Fr> {
     // index bit of values[0] is the most significant
     let mut out = vec![Fr::one()];
     for v in values.iter().rev() {
